@@ -2,8 +2,8 @@
 #include "xs.h"
 
 static const char *const CNT[] = { "info_zero", "pivots_replaced", "rcond_warning", "nodrop_exact_checked", "mc64_rowperm", "no_rowperm", "equed_N", "equed_R", "equed_C", "equed_B", "trans_N", "trans_T", "trans_C", "row_storage",
-    "u_repeated_rows", "multi_col_supernodes", "secondary_drop_rules", "milu_variants", "nr_conj_quirk", "heap_content_differential", NULL };
-enum { K_I0, K_REPL, K_WARN, K_EXACT, K_MC64, K_NOR, K_EN, K_ER, K_EC, K_EB, K_TN, K_TT, K_TC, K_NR, K_UREP, K_MULTI, K_SEC, K_MILU, K_QUIRK, K_HEAPDIFF };
+    "u_repeated_rows", "multi_col_supernodes", "secondary_drop_rules", "milu_variants", "nr_conj_quirk", "heap_content_differential", "etree_checked", NULL };
+enum { K_I0, K_REPL, K_WARN, K_EXACT, K_MC64, K_NOR, K_EN, K_ER, K_EC, K_EB, K_TN, K_TT, K_TC, K_NR, K_UREP, K_MULTI, K_SEC, K_MILU, K_QUIRK, K_HEAPDIFF, K_ETREE };
 static const char *const RAT[] = { "solve_residual_over_allowance", "nodrop_identity_over_allowance", NULL };
 
 static const int CP_I[] = { 0, 3, 2 };
@@ -95,6 +95,14 @@ static void run_C15(const vcase *c, vres *r)
         int bad = o_ilu(&s, c->trans, c->equil, &A_in, &B_in, &B_after, ilu_nodrop(c->k), opt.ConditionNumber == YES, r, &st);
         if (st.multi) WK_COUNT(K_MULTI); if (st.urep) WK_COUNT(K_UREP); if (st.quirk) WK_COUNT(K_QUIRK);
         if (bad) goto done;
+        /* the elimination tree handed back with the column order is the column elimination tree of the matrix in that order (a row permutation by MC64
+           and the scalings do not change it; sp_preorder builds the column tree in symmetric mode as well) */
+        if (info >= 0 && info <= n + 1 && is_perm(s.perm_c, n)) {
+            dmat Fp = A_in; if (s.stor) { dmat Ft; transpose_dm(&Fp, &Ft); Fp = Ft; }
+            int want[NMAX]; ref_etree(&Fp, s.perm_c, n, 0, want);
+            for (int j = 0; j < n; j++) if (s.etree[j] != want[j]) { wk_fail(r, "etree-inconsistent", "xgsisx returned etree[%d]=%d but the column elimination tree of A in the returned order perm_c has parent %d (SymmetricMode=%d)", j, s.etree[j], want[j], c->sym); goto done; }
+            WK_COUNT(K_ETREE);
+        }
         WK_COUNT(e == 'N' ? K_EN : e == 'R' ? K_ER : e == 'C' ? K_EC : K_EB);
         WK_RATIO(0, st.ratio_solve); if (st.exact) { WK_RATIO(1, st.ratio_id); WK_COUNT(K_EXACT); }
     }
